@@ -151,7 +151,23 @@ TraceTlvStepBy ==
                 Flag("C11", Len(section) > 0) \cup Flag("C03", TRUE))
     /\ UNCHANGED << section, offset, yielded, calls >>
 
-TraceNext == TraceOpen \/ TraceTlvNext \/ TraceTlvDerived \/ TraceTlvBound \/ TraceRestart \/ TraceTlvNth \/ TraceTlvRest \/ TraceTlvStepBy
+(* A section of 4 GiB and more: the logged head followed by zero bytes.  The specification walks
+   the head followed by the first m zeros; that stands for the real section as far as the first k
+   items go provided its own walk has at least k + 2 items (binding condition). *)
+TraceTlvHuge ==
+    /\ IsEvent("TlvHuge")
+    /\ LET sec == Flat(Ev.head) \o [i \in 1..Ev.m |-> 0]
+           W == Walk(sec)
+           r == Ev.r
+           k == Ev.k
+       IN  Emit((IF k + 2 > Len(W) THEN {<< "BIND", "modelled-section-too-short-to-stand-for-the-real-one", "tlv-huge" >>} ELSE {})
+                \cup Sel("C11", IF r.k = "ok" /\ k + 2 <= Len(W) /\ ~ItemsMatch(r.items, SubSeq(W, 1, k))
+                                THEN {<< "C11", "item-differs-from-standard-walk", "section-of-4-GiB-and-more" >>} ELSE {})
+                \cup Sel("C03", IF r.k = "panic" THEN {<< "C03", "panic", "tlv-huge" >>} ELSE {}),
+                Flag("C11", TRUE) \cup Flag("C03", TRUE))
+    /\ UNCHANGED << section, offset, yielded, calls >>
+
+TraceNext == TraceTlvHuge \/ TraceOpen \/ TraceTlvNext \/ TraceTlvDerived \/ TraceTlvBound \/ TraceRestart \/ TraceTlvNth \/ TraceTlvRest \/ TraceTlvStepBy
 
 TraceSpec == TraceInit /\ [][TraceNext]_tvars
 
